@@ -79,16 +79,37 @@ def gen_sessions(rng, nevents, opts=None):
     p_fail = opts.get("p_fail", 0.0)
     while limit < nevents + 2 or len(its) < 2:
         limit = min(nevents + 2, limit + rng.randint(1, 4))
-        now += rng.choice([10, 3600, DAY // 2, DAY, 2 * DAY]) if opts.get("clock") else 10
+        if opts.get("_ts"):
+            # an event cannot be consumed before it was published
+            now = max(now, opts["_ts"].get(limit, 0))
+        step = rng.choice([10, 3600, DAY // 2, DAY, 2 * DAY]) if opts.get("clock") else 10
+        aims = [e + d for e in opts.get("_expiry", []) for d in (-1, 0, 1, 3600) if e + d > now]
+        if aims and rng.random() < 0.5:
+            now = rng.choice(aims[:8])
+        else:
+            now += step
         its.append({"limit": limit, "now": now, "restart": rng.random() < opts.get("p_restart", 0.0)})
         if len(its) > 40:
             break
+    if opts.get("retention_switch"):
+        # retention switched between 0 and R at restarts
+        cur = opts["retention_switch"][0]
+        for it in its:
+            if it["restart"] and rng.random() < 0.6:
+                cur = rng.choice(opts["retention_switch"])
+            it["retention"] = cur
     for it in its:
         it["faults"] = True
     ndrain = opts.get("extra_iters", 2) if not p_fail else min(40, nevents + 3)
     for _ in range(ndrain):          # drain: handlers no longer fail
-        now += rng.choice([10, DAY, 3 * DAY]) if opts.get("clock") else 10
+        aims = [e + d for e in opts.get("_expiry", []) for d in (-1, 0, 1, 3600) if e + d > now]
+        if aims and rng.random() < 0.5:
+            now = rng.choice(aims[:8])
+        else:
+            now += rng.choice([10, DAY, 3 * DAY]) if opts.get("clock") else 10
         its.append({"limit": nevents + 2, "now": now, "restart": False, "faults": False})
+        if opts.get("retention_switch"):
+            its[-1]["retention"] = its[-2]["retention"]
     ncalls = 8 * nevents + 40
     outcomes = []
     for i in range(ncalls):
@@ -150,11 +171,26 @@ def run_case(case, wd, sessions=None):
     os.makedirs(wd)
     busjson = produce_bus(case, wd)
     sessions = sessions or case.get("sessions")
+    sopts = dict(case.get("session_opts") or {})
+    ts_override = case.get("ts_override")
+    if ts_override is None and sopts.get("spread_ts"):
+        # bus timestamps spread over hours and days (derived from the case seed)
+        r2 = random.Random(case["sseed"] ^ 0x5bd1e995)
+        t, ts_override = 0, {}
+        for i in range(len(busjson)):
+            t += r2.choice([10, 10, 600, 3600, 6 * 3600, DAY // 2, DAY])
+            ts_override[str(i + 1)] = t
+    if ts_override:
+        sopts["_ts"] = {int(k): v for k, v in ts_override.items()}
+        if sopts.get("aim_expiry") and case["retention"]:
+            # clock values aimed at the retention limit of the removal events (+-1 s, +1 h)
+            sopts["_expiry"] = sorted(ts_override[str(i + 1)] + case["retention"] * DAY
+                                      for i, d in enumerate(busjson) if json.loads(d).get("eventtype") == "removed")
     if sessions is None:
-        sessions = gen_sessions(random.Random(case["sseed"]), len(busjson) - 2, case.get("session_opts"))
+        sessions = gen_sessions(random.Random(case["sseed"]), len(busjson) - 2, sopts)
     bus = [(i + 1, EPOCH + datetime.timedelta(seconds=10 * (i + 1)), d) for i, d in enumerate(busjson)]
-    if case.get("ts_override"):
-        bus = [(o, EPOCH + datetime.timedelta(seconds=case["ts_override"].get(str(o), secs(t))), d) for (o, t, d) in bus]
+    if ts_override:
+        bus = [(o, EPOCH + datetime.timedelta(seconds=ts_override.get(str(o), secs(t))), d) for (o, t, d) in bus]
     world = {"bus": bus, "next": len(bus) + 1, "calls": [], "ncall": 0}
     outs = sessions["outcomes"]
 
@@ -210,9 +246,14 @@ def run_case(case, wd, sessions=None):
             return (not it.get("faults", True) and not ob["queue"] and ob["next"] == len(bus) + 1
                     and not ob["calls"] and not any(x.get("restart") for x in iters[gi + 1:]))
         return after
+    def conf_for(it):
+        return clidrv.client_config(wd + "/cli", case["cdm"], trashbin_retention=it.get("retention", case["retention"]),
+                                    foreignkeys_policy=case["fkpolicy"], autoremediation=case["remediation"],
+                                    cache=case["cache"])
     for si, seg in enumerate(segments):
         if si > 0:
-            cl = clidrv.start_client(wd + "/cli", conf, world)
+            # the retention in force may change across a restart (it["retention"])
+            cl = clidrv.start_client(wd + "/cli", conf_for(seg[0]), world)
         seg2 = [dict(it, now=EPOCH + datetime.timedelta(seconds=it["now"])) for it in seg]
         clidrv.run_segment(cl, seg2, before, make_after(cl))
     init = obs[0][1]
@@ -380,9 +421,11 @@ def case_to_gallina(case, res, sessions=None):
         delivered = "[]"
         ws, q = ctx.gstate_obs(ob)
         calls = glist(ctx.gcall(c) for c in ob["calls"])
-        iters.append("(CIter {} {} {} {} {} {} {} {} {})".format(
+        ret = it.get("retention", case["retention"])
+        iters.append("(CIter {} {} {} {} {} {} {} {} {} {})".format(
             gZ(it["now"]), gbool(it.get("restart", False)), delivered, calls, glist(ws), q,
-            gZ(ob["next"] if ob["next"] is not None else -1), gbool(ob["exc"] is not None), gZ(it["limit"])))
+            gZ(ob["next"] if ob["next"] is not None else -1), gbool(ob["exc"] is not None), gZ(it["limit"]),
+            "None" if not ret else f"(Some {gZ(ret * DAY)})"))
     # queue content (objects having entries) observed at every handler invocation
     rname = {l: r for r, l in ctx.lname_of.items()}
     pk_of = {t["name"]: t["pkey"] for t in case["cfg"]["types"]}
